@@ -37,7 +37,18 @@ func runC19(p *Prog, l *Ledger) {
 	for _, T := range p.structTypes("patterns/pool") {
 		lf := fieldsOfType(T, limNamed)
 		if len(lf) != 1 {
-			continue
+			// a pool built on another pool of this package (FixedPool holding the *Pool that NewPool returns)
+			lf = nil
+			if st, ok := T.Underlying().(*types.Struct); ok {
+				for i := 0; i < st.NumFields(); i++ {
+					if d := derefNamed(st.Field(i).Type()); d != nil && !types.Identical(d, T) && d.Obj().Pkg() == T.Obj().Pkg() && len(fieldsOfType(d, limNamed)) == 1 {
+						lf = append(lf, FieldRef{Type: T, Index: i, Name: st.Field(i).Name()})
+					}
+				}
+			}
+			if len(lf) != 1 {
+				continue
+			}
 		}
 		for _, ctor := range p.Constructors(T) {
 			n++
@@ -91,95 +102,145 @@ func runC19(p *Prog, l *Ledger) {
 					bad = append(bad, "a pool is returned whose limiter was never set: "+joinWitness(p.DescribePath(pa)))
 					return len(bad) < 3
 				}
-				wcall, ok := strip(pa.Resolve(limVal, last), false).(*ssa.Call)
-				if !ok {
-					bad = append(bad, "the pool's limiter is not a freshly constructed wrapper: "+valueString(limVal))
-					return len(bad) < 3
+				var delegate ssa.Value
+				delegated := false
+				// the limiter may come out of another pool built here by this package's own constructor
+				// (p, err := NewPool(defaultLimiter, ordering, ...); limiter: p.limiter): that constructor's own obligation
+				// covers the wrapping; here the delegate and the forwarded arguments are checked
+				var poolT *types.Named
+				var root ssa.Value
+				if fr2, base2, isLd := loadedField(strip(pa.Resolve(limVal, last), false)); isLd && fr2.Type != nil && len(fieldsOfType(fr2.Type, limNamed)) == 1 && p.relPkg(fr2.Type.Obj().Pkg().Path()) == "patterns/pool" {
+					poolT, root = fr2.Type, strip(AccessPath(base2).Root, false)
+				} else if d := derefNamed(limVal.Type()); d != nil && d.Obj().Pkg() == T.Obj().Pkg() && len(fieldsOfType(d, limNamed)) == 1 {
+					poolT, root = d, strip(pa.Resolve(limVal, last), false)
 				}
-				wc := p.CallOf(wcall)
-				if wc.Static == nil || !p.InPkg(wc.Static, "limiter") || len(wc.Args) < 2 {
-					bad = append(bad, "the pool's limiter is not built by a limiter-package constructor")
-					return len(bad) < 3
-				}
-				// blocking wrappers only
-				isQueue := false
-				for _, a := range wc.Args {
-					if d := derefNamed(a.Type()); d != nil && d.Obj().Name() == "QueueLimiterConfig" {
-						isQueue = true
+				if poolT != nil {
+					fr2 := FieldRef{Type: poolT}
+					if ex, isEx := root.(*ssa.Extract); isEx {
+						root = ex.Tuple
 					}
-				}
-				if !isQueue && !strings.Contains(wc.Static.Name(), "Blocking") && !strings.Contains(wc.Static.Name(), "Deadline") {
-					bad = append(bad, fmt.Sprintf("%s: the pool wraps its delegate with %s, which does not block", p.At(wcall), wc.Static.Name()))
-				}
-				delegate := strip(pa.Resolve(wc.Args[0], last), false)
-				// timeout / backlog forwarding
-				var timeoutP, backlogP *ssa.Parameter
-				for _, q := range ctor.Params {
-					switch {
-					case strings.Contains(strings.ToLower(q.Name()), "timeout"):
-						timeoutP = q
-					case strings.Contains(strings.ToLower(q.Name()), "backlog"):
-						backlogP = q
-					}
-				}
-				normTimeout := func(v ssa.Value) string {
-					r := pa.ResolveWidths(v, last)
-					if timeoutP == nil {
-						return "constructor has no timeout parameter"
-					}
-					if r == ssa.Value(timeoutP) {
-						if lb, ok := pa.IntLowerBound(timeoutP, last+1); ok && lb >= 0 {
-							return ""
-						}
-						return "the raw timeout is forwarded on a path that has not normalised a negative value"
-					}
-					if k, ok := constInt(r); ok && k == 0 {
-						if ub, ok := pa.IntUpperBound(timeoutP, last+1); ok && ub < 0 {
-							return ""
-						}
-						return "timeout replaced by 0 although it was not negative"
-					}
-					return "the timeout handed to the wrapper is not the (normalised) timeout parameter: " + valueString(r)
-				}
-				if isQueue {
-					var cfg *ssa.Alloc
-					for _, a := range wcall.Call.Args {
-						if u, ok := a.(*ssa.UnOp); ok {
-							if al, ok := u.X.(*ssa.Alloc); ok {
-								cfg = al
+					if pc, isCall := root.(*ssa.Call); isCall {
+						if g := pc.Call.StaticCallee(); g != nil && p.InPkg(g, "patterns/pool") && g != ctor && len(p.allocsOf(g, fr2.Type)) > 0 {
+							delegated = true
+							for i, a := range pc.Call.Args {
+								if types.Identical(a.Type(), limNamed) {
+									delegate = strip(pa.Resolve(a, last), false)
+								}
+								if i >= len(g.Params) {
+									continue
+								}
+								for _, cp := range ctor.Params {
+									lname := strings.ToLower(cp.Name())
+									if !(strings.Contains(lname, "order") || strings.Contains(lname, "backlog") || strings.Contains(lname, "timeout")) {
+										continue // logger / registry are defaulted before they are forwarded
+									}
+									if strings.EqualFold(cp.Name(), g.Params[i].Name()) && types.Identical(cp.Type(), g.Params[i].Type()) {
+										if got := pa.ResolveWidths(a, last); got != ssa.Value(cp) {
+											if k, isK := constInt(got); !(isK && k == 0 && strings.Contains(strings.ToLower(cp.Name()), "timeout")) {
+												bad = append(bad, fmt.Sprintf("%s: %s is handed %s for its parameter %s, not this constructor's %s", p.At(pc), p.Key(g), valueString(got), g.Params[i].Name(), cp.Name()))
+											}
+										}
+									}
+								}
+							}
+							if delegate == nil {
+								bad = append(bad, fmt.Sprintf("%s: %s is not given a delegate limiter", p.At(pc), p.Key(g)))
+								return len(bad) < 3
 							}
 						}
 					}
-					if cfg == nil {
-						bad = append(bad, "queue wrapper configuration is not a literal")
+				}
+				if !delegated {
+					wcall, ok := strip(pa.Resolve(limVal, last), false).(*ssa.Call)
+					if !ok {
+						bad = append(bad, "the pool's limiter is not a freshly constructed wrapper: "+valueString(limVal))
+						return len(bad) < 3
+					}
+					wc := p.CallOf(wcall)
+					if wc.Static == nil || !p.InPkg(wc.Static, "limiter") || len(wc.Args) < 2 {
+						bad = append(bad, "the pool's limiter is not built by a limiter-package constructor")
+						return len(bad) < 3
+					}
+					// blocking wrappers only
+					isQueue := false
+					for _, a := range wc.Args {
+						if d := derefNamed(a.Type()); d != nil && d.Obj().Name() == "QueueLimiterConfig" {
+							isQueue = true
+						}
+					}
+					if !isQueue && !strings.Contains(wc.Static.Name(), "Blocking") && !strings.Contains(wc.Static.Name(), "Deadline") {
+						bad = append(bad, fmt.Sprintf("%s: the pool wraps its delegate with %s, which does not block", p.At(wcall), wc.Static.Name()))
+					}
+					delegate = strip(pa.Resolve(wc.Args[0], last), false)
+					// timeout / backlog forwarding
+					var timeoutP, backlogP *ssa.Parameter
+					for _, q := range ctor.Params {
+						switch {
+						case strings.Contains(strings.ToLower(q.Name()), "timeout"):
+							timeoutP = q
+						case strings.Contains(strings.ToLower(q.Name()), "backlog"):
+							backlogP = q
+						}
+					}
+					normTimeout := func(v ssa.Value) string {
+						r := pa.ResolveWidths(v, last)
+						if timeoutP == nil {
+							return "constructor has no timeout parameter"
+						}
+						if r == ssa.Value(timeoutP) {
+							if lb, ok := pa.IntLowerBound(timeoutP, last+1); ok && lb >= 0 {
+								return ""
+							}
+							return "the raw timeout is forwarded on a path that has not normalised a negative value"
+						}
+						if k, ok := constInt(r); ok && k == 0 {
+							if ub, ok := pa.IntUpperBound(timeoutP, last+1); ok && ub < 0 {
+								return ""
+							}
+							return "timeout replaced by 0 although it was not negative"
+						}
+						return "the timeout handed to the wrapper is not the (normalised) timeout parameter: " + valueString(r)
+					}
+					if isQueue {
+						var cfg *ssa.Alloc
+						for _, a := range wcall.Call.Args {
+							if u, ok := a.(*ssa.UnOp); ok {
+								if al, ok := u.X.(*ssa.Alloc); ok {
+									cfg = al
+								}
+							}
+						}
+						if cfg == nil {
+							bad = append(bad, "queue wrapper configuration is not a literal")
+						} else {
+							cfgT := derefNamed(cfg.Type())
+							if f, ok := FieldByName(cfgT, "MaxBacklogSize"); ok {
+								vs := storesInto(cfg, f)
+								if len(vs) != 1 || backlogP == nil || strip(vs[0], true) != ssa.Value(backlogP) {
+									bad = append(bad, fmt.Sprintf("%s: the backlog size parameter does not reach the queue configuration", p.At(wcall)))
+								}
+							}
+							if f, ok := FieldByName(cfgT, "MaxBacklogTimeout"); ok {
+								vs := storesInto(cfg, f)
+								if len(vs) != 1 {
+									bad = append(bad, fmt.Sprintf("%s: the timeout parameter does not reach the queue configuration", p.At(wcall)))
+								} else if why := normTimeout(vs[0]); why != "" {
+									bad = append(bad, fmt.Sprintf("%s: %s", p.At(wcall), why))
+								}
+							}
+						}
 					} else {
-						cfgT := derefNamed(cfg.Type())
-						if f, ok := FieldByName(cfgT, "MaxBacklogSize"); ok {
-							vs := storesInto(cfg, f)
-							if len(vs) != 1 || backlogP == nil || strip(vs[0], true) != ssa.Value(backlogP) {
-								bad = append(bad, fmt.Sprintf("%s: the backlog size parameter does not reach the queue configuration", p.At(wcall)))
+						okT := false
+						for _, a := range wc.Args[1:] {
+							if nt, ok := a.Type().(*types.Named); ok && nt.Obj().Name() == "Duration" {
+								if why := normTimeout(a); why != "" {
+									bad = append(bad, fmt.Sprintf("%s: %s", p.At(wcall), why))
+								}
+								okT = true
 							}
 						}
-						if f, ok := FieldByName(cfgT, "MaxBacklogTimeout"); ok {
-							vs := storesInto(cfg, f)
-							if len(vs) != 1 {
-								bad = append(bad, fmt.Sprintf("%s: the timeout parameter does not reach the queue configuration", p.At(wcall)))
-							} else if why := normTimeout(vs[0]); why != "" {
-								bad = append(bad, fmt.Sprintf("%s: %s", p.At(wcall), why))
-							}
-						}
+						_ = okT
 					}
-				} else {
-					okT := false
-					for _, a := range wc.Args[1:] {
-						if nt, ok := a.Type().(*types.Named); ok && nt.Obj().Name() == "Duration" {
-							if why := normTimeout(a); why != "" {
-								bad = append(bad, fmt.Sprintf("%s: %s", p.At(wcall), why))
-							}
-							okT = true
-						}
-					}
-					_ = okT
 				}
 				// the delegate
 				if prm, ok := delegate.(*ssa.Parameter); ok {
